@@ -5,7 +5,7 @@ import json, os, re, shutil, glob
 SRC = '/tmp/seed_out'
 DST = '/verif/seeded'
 NEEDS = json.load(open('/verif/tools/seed_needs.json'))
-for d in sorted(glob.glob(SRC + '/C??/[ab]') + glob.glob(SRC + '/C??2/[ab]')):
+for d in sorted(glob.glob(SRC + '/C??/[ab]') + glob.glob(SRC + '/C??2/[ab]') + glob.glob(SRC + '/C??3/[ab]')):
     pid, x = d.split('/')[-2:]
     cf = os.path.join(d, 'confirm.json')
     if not os.path.exists(cf):
